@@ -10,7 +10,7 @@ fn registry() -> Vec<(&'static str, RunFn, ReplayFn, u64)> {
     // (id, run, replay, watchdog seconds for the thorough tier; quick uses a quarter)
     vec![
         ("C01", props::c01::run, props::c01::replay, 7200),
-        ("C02", props::c02::run, props::c02::replay, 7200),
+        ("C02", props::c02::run, props::c02::replay, 14400),
         ("C03", props::c03::run, props::c03::replay, 7200),
         ("C04", props::c04::run, props::c04::replay, 7200),
         ("C05", props::c05::run, props::c05::replay, 7200),
